@@ -63,7 +63,8 @@ pub fn check_parse(input: &ParseIn, case: &mut Case) -> Result<(), Fail> {
     let tc = u16::from(pk.answers[0].rdata.type_code());
     ensure!(tc == code, format!("c10:type-code:{}", mnemonic(code)), "parsed variant reports type {} for wire type {}", tc, code);
     let o = lib("observe", || observe_record(&pk.answers[0]))?;
-    ensure!(o == *rec, format!("c10:parse-values:{}", mnemonic(code)), "{} parsed as {:?}, expected {:?}", mnemonic(code), o.rdata, rec.rdata);
+    // the RDATA field values (owner, class, TTL and cache-flush bit of the entry are other statements' subject)
+    ensure!(o.rdata == rec.rdata, format!("c10:parse-values:{}", mnemonic(code)), "{} parsed as {:?}, expected {:?}", mnemonic(code), o.rdata, rec.rdata);
     if *trail {
         let o2 = lib("observe", || observe_record(&pk.answers[1]))?;
         ensure!(o2 == trailing(), "c10:parse-trailing", "record after a {} record parsed as {:?}", mnemonic(code), o2);
@@ -113,15 +114,14 @@ fn check_build(input: &ARecord, case: &mut Case) -> Result<(), Fail> {
     }
     let got = &out[r.rdata_off..r.end];
     ensure!(got == &want[..], format!("c10:build-bytes:{}", mnemonic(code)), "{} RDATA {} expected {}", mnemonic(code), hex(got), hex(&want));
-    // and the whole message equals the reference encoding
+    // (TYPE, RDLENGTH and RDATA are what the statement fixes; header, owner, class and TTL bytes are compared by C02 / C04)
+    ensure!(r.rdlen == want.len(), format!("c10:build-bytes:{}", mnemonic(code)), "{} RDLENGTH {} for {} RDATA octets", mnemonic(code), r.rdlen, want.len());
     let p = APacket { id: 1, flags: 0x8000, answers: vec![rec.clone()], ..Default::default() };
-    let refwire = encode_message(&p, &EncOpts::plain());
-    ensure!(out == refwire, "c10:build-message", "message {} expected {}", hex(&out), hex(&refwire));
     // the same encoding reaches a writer that accepts only a few bytes per call (plain and compressing entry points)
     let chunk = 1 + (rec.ttl as usize % 19);
     let mut w = super::c04::ChunkedWriter { inner: std::io::Cursor::new(Vec::new()), chunk };
     lib("write_to", || pk.write_to(&mut w))?.map_err(|e| Fail::new("c10:build-failed", format!("{:?}", e)))?;
-    ensure!(w.inner.get_ref()[..] == refwire[..], format!("c10:build-bytes-short-writes:{}", mnemonic(code)), "{}: a writer accepting {} bytes per call receives {} expected {}", mnemonic(code), chunk, hex(w.inner.get_ref()), hex(&refwire));
+    ensure!(w.inner.get_ref()[..] == out[..], format!("c10:build-bytes-short-writes:{}", mnemonic(code)), "{}: a writer accepting {} bytes per call receives {} expected {}", mnemonic(code), chunk, hex(w.inner.get_ref()), hex(&out));
     let mut w = super::c04::ChunkedWriter { inner: std::io::Cursor::new(Vec::new()), chunk };
     lib("write_compressed_to", || pk.write_compressed_to(&mut w))?.map_err(|e| Fail::new("c10:build-failed", format!("{:?}", e)))?;
     let wc = walk(w.inner.get_ref()).map_err(|e| Fail::new(format!("c10:build-framing:{}", mnemonic(code)), format!("compressed output through a short-write writer does not walk: {:?}", e)))?;
@@ -136,7 +136,7 @@ fn check_build(input: &ARecord, case: &mut Case) -> Result<(), Fail> {
     }
     match decode_message(cbytes) {
         Ok((back, _)) => {
-            ensure!(back == p, format!("c10:build-compressed-values:{}", mnemonic(code)), "the compressed output {} decodes differently: {}", hex(cbytes), diff(&back, &p));
+            ensure!(back.answers.len() == 1 && back.answers[0].rdata == rec.rdata, format!("c10:build-compressed-values:{}", mnemonic(code)), "the compressed output {} decodes differently: {}", hex(cbytes), diff(&back, &p));
         }
         Err(e) => return Err(Fail::new(format!("c10:build-compressed-values:{}", mnemonic(code)), format!("the reference decoder rejects the compressed output {}: {:?}", hex(cbytes), e))),
     }
@@ -270,7 +270,11 @@ fn check_rule(rule: &Rule, case: &mut Case) -> Result<(), Fail> {
     let verdict = decode_record(&msg, &w.records[0]);
     let got = parse(&msg)?;
     match verdict {
-        Err(DecErr::Overrun) | Err(DecErr::Rule(_)) | Err(DecErr::Name(_)) => {
+        // an embedded name that breaks a name rule (reserved label type, length limits, bad pointer) is C06's subject
+        Err(DecErr::Name(_)) => {
+            case.class(format!("{}:embedded-name-rule:no-claim", label));
+        }
+        Err(DecErr::Overrun) | Err(DecErr::Rule(_)) => {
             case.class(format!("{}:must-reject", label));
             if let Ok(p) = &got {
                 let shown = if code == 41 { format!("{:?}", observe(p).edns) } else { format!("{:?}", p.answers.first().map(observe_record)) };
@@ -298,7 +302,7 @@ fn check_rule(rule: &Rule, case: &mut Case) -> Result<(), Fail> {
             }
             ensure!(p.answers.len() == 2, "c10:parse-count", "expected 2 answers, got {}", p.answers.len());
             let o = lib("observe", || observe_record(&p.answers[0]))?;
-            ensure!(o == want, format!("c10:parse-values:{}", mnemonic(code)), "{} RDATA {} parsed as {:?}, expected {:?}", mnemonic(code), hex(&rdata), o.rdata, want.rdata);
+            ensure!(o.rdata == want.rdata, format!("c10:parse-values:{}", mnemonic(code)), "{} RDATA {} parsed as {:?}, expected {:?}", mnemonic(code), hex(&rdata), o.rdata, want.rdata);
         }
         Ok((_, Fill::Surplus(_))) => {
             // typed content shorter than its frame: C05 decides (reject or ignore surplus)
@@ -463,6 +467,7 @@ fn check_opt(input: &OptIn, case: &mut Case) -> Result<(), Fail> {
     };
     let (got, want) = (find(&out)?, find(&refwire)?);
     ensure!(got == want, "c10:build-bytes:OPT", "OPT record {} expected {}", hex(&got), hex(&want));
-    ensure!(out.len() == refwire.len() && out[..12] == refwire[..12], "c10:build-message:OPT", "message {} expected {}", hex(&out), hex(&refwire));
+    // (header flag bits are C08's; the counts say that the OPT record is there once)
+    ensure!(out.len() == refwire.len() && out[4..12] == refwire[4..12], "c10:build-message:OPT", "message {} expected {}", hex(&out), hex(&refwire));
     Ok(())
 }
